@@ -102,6 +102,9 @@ impl Peer {
 
     fn log(&self, dir: &'static str, channel: u16, what: String) {
         let t_ms = self.start.elapsed().as_millis() as u64;
+        if std::env::var_os("VERIF_TRACE").is_some() {
+            eprintln!("{} {} ch{} {}", t_ms, dir, channel, what);
+        }
         self.trace.lock().unwrap().push(Event { t_ms, dir, channel, what });
     }
 
